@@ -13,7 +13,7 @@ from jsonpath.exceptions import (
 )
 
 from vlib import spines
-from vlib.hs import Leaf, P, kf, ok, pick, small, why
+from vlib.hs import Leaf, P, alist, drive, kf, ok, pick, small, why
 
 ENV = JSONPathEnvironment(well_typed=P.get("well_typed", True))
 IS = Union[int, str]
@@ -69,7 +69,10 @@ def evaluate(ka: int, kb: int, i: int, s: str, flip: bool, n: int) -> bool:
     else:
         doc = [a, b, [a], {"a": b}][: n + 2]
     try:
-        list(COMPILED.finditer(doc, filter_context={"k": i, "a": a}))
+        if P.get("route") == "async":  # the async entry points are held to the same rule
+            drive(alist(drive(COMPILED.finditer_async(doc, filter_context={"k": i, "a": a}))))
+        else:
+            list(COMPILED.finditer(doc, filter_context={"k": i, "a": a}))
     except jsonpath.JSONPathError as e:
         str(e)
     return ok(True)
